@@ -250,3 +250,24 @@ def walk_no_nested(node):
         if isinstance(n, (ast.FunctionDef, ast.AsyncFunctionDef, ast.Lambda, ast.ClassDef)):
             continue
         todo.extend(ast.iter_child_nodes(n))
+
+
+def include_rules(chk, rule, module, rule_ids, what):
+    """Re-run rules of another property's module on the same program and fold their findings into `rule`
+    (used where one property's clause *is* another property's rule)."""
+    sub = Check(chk.prop, chk.prog, tier=chk.tier, seed=chk.seed)
+    try:
+        module.run(sub)
+    except AnalysisError as e:
+        if not any(r.id in rule_ids for r in sub.rules):
+            raise
+    n = 0
+    for r in sub.rules:
+        if r.id in rule_ids:
+            n += r.obligations
+            for f in r.findings:
+                g = rule.fail("via-" + f.key, "%s: %s" % (what, f.msg), file=f.file, line=f.line)
+                g.func = f.func
+                g.witness = f.witness
+    rule.ok("%s (%d obligations of %s re-checked)" % (what, n, "/".join(rule_ids)))
+    return n
